@@ -486,6 +486,30 @@ def r7_shared(ctx):
     r2_order(Relabel(ctx, 'C06.R3'))
 
 
+def r10_close_forgets_the_keys(ctx):
+    """close() is what ends a session: afterwards the object holds no key material, whatever happens while the backend
+    is shut down.  `del self.props` is reached on every path through close(), including the one on which the backend's
+    close raises - otherwise a later unlock with the wrong password fails but leaves the old keys usable."""
+    corpus = ctx.corpus
+    f = corpus.func('repository', 'Repository.close')
+    ctx.analysed(f)
+    cfg = cfg_of(f.node)
+    dels = [d for d in walk_local(f.node) if isinstance(d, ast.Delete) and any(isinstance(t, ast.Attribute) and t.attr == 'props' for t in d.targets)]
+    dels += [a for a in walk_local(f.node) if isinstance(a, ast.Assign) and any(isinstance(t, ast.Attribute) and t.attr == 'props' for t in a.targets)]
+    ctx.floor('C06.R8', 'statement in close() that drops self.props', len(dels))
+    dn = [x for d in dels for x in cfg.nodes_of(d, ('stmt', 'ok'))]
+    skip = cfg.path(cfg.entry, [cfg.exit, cfg.raise_exit], avoid=dn)
+    ctx.check(
+        skip is None,
+        'C06.R8',
+        f'{func_label(f)}|close-always-forgets-the-keys',
+        loc(f, dels[0]),
+        'close: self.props is dropped on every path, also when closing the backend fails',
+        'close: the method can end (e.g. with the exception of the backend\'s close) without having dropped self.props: the key material of the session stays on the object - '
+        'after a failed unlock with another password the old keys still restore, list and mint shared keys',
+    )
+
+
 def run(ctx):
     from .shared import zip_alignment
 
@@ -497,6 +521,11 @@ def run(ctx):
     # deleting one's own snapshot never removes chunks that snapshots of other users (same key family) still reference
     r1_keep_set(Relabel(ctx, 'C06.R7'), DeleteRoles(ctx.corpus))
     r8_session_key_fixed(ctx)
+    r10_close_forgets_the_keys(ctx)
+    # a shared-key user sees that the others' snapshots exist
+    from .c15 import r2b_every_loaded_snapshot_is_listed
+
+    r2b_every_loaded_snapshot_is_listed(ctx, 'C06.R5')
     from .shared import deletion_confined_to_gc_commands
 
     # a user can not cause the removal of another user's chunks: only delete / clean remove anything, and those are gated below
